@@ -132,6 +132,33 @@ def halfway_inputs(F, rng, binades, pats_per=3, long_ok=True, variants=True):
     return out
 
 
+def sticky_placement_inputs(F, rng, n):
+    """Exact ties (short integers exactly halfway between two floats) followed by zeros up to / beyond the
+    big-integer digit limit (769 for f64, 114 for f32) and then ONE non-zero digit, placed in the integer
+    part or in the fraction, with an exponent bringing the value back into range: the sticky digit must
+    turn the tie into 'above'."""
+    p = F["p"]
+    lim = 769 if p == 53 else 114
+    out = []
+    for _ in range(n):
+        e = rng.choice([1, 1, 2, 3, 5, 10, 30])
+        m = rng.randrange(1 << (p - 1), 1 << p)
+        ds = str((2 * m + 1) << (e - 1))            # exactly halfway, an integer
+        for total in (lim - 2, lim - 1, lim, lim + 1, lim + 3, lim + 40):
+            z = total - len(ds)
+            if z < 0:
+                continue
+            for (ipart, fpart) in ((ds + "0" * z, "1"), (ds + "0" * z, "0" * rng.choice([1, 7]) + "1"),
+                                   (ds + "0" * z + "1", ""), (ds + "0" * (z // 2), "0" * (z - z // 2) + "1"),
+                                   (ds + "0" * z, "0"), (ds + "0" * z, "")):
+                drop = len(ipart) - len(ds)
+                s_ = ipart + ("." + fpart if fpart else "") + "e-%d" % drop
+                out.append((s_, "sticky-placement"))
+                if rng.random() < 0.3:
+                    out.append(("-" + ipart + ("." + fpart if fpart else ""), "sticky-placement-huge"))
+    return out
+
+
 def lemire_row_inputs(F, rng, qs, per=2):
     """19/20-digit significands w such that w * 10^q straddles a rounding boundary within ~2^-63."""
     out = []
